@@ -15,6 +15,9 @@ under which guard) and is decided here for all inputs by a def-use analysis of t
                                D.setdefault("P", P) after the last binding of D and no other write to D's key P, or
                                (P not a named parameter) the function's own **kwargs / options-dict parameter, never
                                mutated on key P (only D = ensure_dict(D) allowed)
+      sink[callee#k]:opt:Q   every further scalar option Q of OPTS (canonize, mode, layer_tags, compress_late,
+                               equalize_norms, sweep_reverse, lazy) that the call passes by its own name is the caller's Q;
+                               Q re-bound only under `if Q == "auto"` / `if Q is None` (documented default resolution)
       skip-guard-compare / skip-guard-none[callee#k]   every enclosing `if` that consults bonds_size has exactly the form
                                (cap is None) or bonds_size(..) > cap    with cap resolving to max_bond (two obligations:
                                the comparison, and the None disjunct)
@@ -39,6 +42,12 @@ TC = "quimb/tensor/tensor_core.py"
 AG = "quimb/tensor/tnag/compress.py"
 
 CAPS = ("max_bond", "cutoff")
+# further options that decide HOW the compression is done; pure pass-through by their documentation ("mode" only in the lattice
+# files, where it names the boundary method; in tensor_core.py it is a gauge setting resolved by
+# choose_local_compress_gauge_settings)
+# (dict-valued options -- compress_opts, canonize_opts -- are NOT covered here: functions add defaults to them; the 2D core's
+# compress_opts flow is an E1 obligation of contracts/c10_sweeps.py)
+OPTS = ("canonize", "mode", "layer_tags", "compress_late", "equalize_norms", "sweep_reverse", "lazy")
 
 # compressing callees (or the next level that takes the cap)
 SINKS = {
@@ -302,17 +311,21 @@ def sink_receives(fn, call, P, par):
     return False, "; ".join(why[1:] or why)
 
 
-def rebinding_ok(fn, P, par):
+def rebinding_ok(fn, P, par, sentinels=("auto",), allow_ensure_dict=False):
     bad = []
     for k, n in bindings(fn, P):
         ok = False
-        if k == "assign":
+        if k == "assign" and allow_ensure_dict and _is_ensure_dict_of_self(n, P) and _top_level_stmt(fn, n, par) is not None:
+            ok = True
+        elif k == "assign":
             s = n
             while s in par and s is not fn:
                 s = par[s]
                 if isinstance(s, ast.If) and isinstance(s.test, ast.Compare) and isinstance(s.test.left, ast.Name) and \
-                        s.test.left.id == P and len(s.test.ops) == 1 and isinstance(s.test.ops[0], ast.Eq) and \
-                        isinstance(s.test.comparators[0], ast.Constant) and s.test.comparators[0].value == "auto" and \
+                        s.test.left.id == P and len(s.test.ops) == 1 and isinstance(s.test.comparators[0], ast.Constant) and \
+                        ((isinstance(s.test.ops[0], ast.Eq) and isinstance(s.test.comparators[0].value, str)
+                          and s.test.comparators[0].value in sentinels)
+                         or (isinstance(s.test.ops[0], ast.Is) and s.test.comparators[0].value is None and None in sentinels)) and \
                         any(n is x for b in s.body for x in ast.walk(b)):
                     ok = True
                     break
@@ -404,8 +417,8 @@ def threading_obligations(root, only=None):
             ob("function-present", False, "function not found (or defined twice)")
             continue
         par = _parents(fn)
-        sinks = sorted([c for c in ast.walk(fn) if isinstance(c, ast.Call) and _callee_name(c) in SINKS
-                        and _callee_name(c) != name.rstrip("_") + "__"], key=lambda c: (c.lineno, c.col_offset))
+        sinks = sorted([c for c in ast.walk(fn) if isinstance(c, ast.Call) and _callee_name(c) in SINKS],
+                       key=lambda c: (c.lineno, c.col_offset))
         ob("cap-sinks-present", len(sinks) >= nmin, f"{len(sinks)} compressing calls, expected >= {nmin}", fn.lineno)
         ps = params_of(fn)
         for P in CAPS:
@@ -420,6 +433,14 @@ def threading_obligations(root, only=None):
             for P in CAPS:
                 ok, why = sink_receives(fn, c, P, par)
                 ob(f"sink[{tag}]:{P}: the compressing callee receives the caller's {P}", ok, why or None, c.lineno)
+            for kwd in c.keywords:
+                Q = kwd.arg
+                if Q in OPTS and Q in ps and (Q != "mode" or rel in (T2, T3)):
+                    bad = rebinding_ok(fn, Q, par, sentinels=("auto", None))
+                    ok = isinstance(kwd.value, ast.Name) and kwd.value.id == Q and not bad
+                    ob(f"sink[{tag}]:opt:{Q}: the compressing callee receives the caller's {Q} (or its documented 'auto' / None "
+                       f"default resolution)", ok,
+                       None if ok else f"{Q}={ast.unparse(kwd.value)}; " + "; ".join(bad), c.lineno)
             seen, bad_cmp, bad_none = skip_guard_ok(fn, c, par)
             if seen or cn == "_compress_between_tids" and name in ("_contract_boundary_core", "_contract_compressed_tid_sequence"):
                 ob(f"skip-guard-compare[{tag}]: compression skipped only when bonds_size <= cap", seen >= 1 and not bad_cmp,
@@ -432,19 +453,19 @@ def threading_obligations(root, only=None):
     return out
 
 
-# GENUINE DEFECT of the unchanged tree (reported, kept OUT of the registered obligations; `unregistered_obligations()` still
-# evaluates it): TensorNetwork3D._contract_boundary_core compares bonds_size(t1, tn) > max_bond without the `max_bond is None`
-# disjunct its 2D twin has: TN3D.contract_boundary(max_bond=None, mode="peps", compress_late=False) raises TypeError although
-# max_bond=None is the documented "use only the cutoff".
-KNOWN_OUT = (f"{T3}::TensorNetwork3D._contract_boundary_core::skip-guard-none[",)
+# The 3D twin of the 2D guard: TensorNetwork3D._contract_boundary_core compared bonds_size(t1, tn) > max_bond without the
+# `max_bond is None` disjunct (TN3D.contract_boundary(max_bond=None, mode="peps", compress_late=False) raised TypeError although
+# max_bond=None is the documented "use only the cutoff").  Found by the skip-guard-none obligation, repaired in /repo by
+# dd440607 (known_findings.d/C12.json, C12-m, fixed); the obligation is registered like every other one since.
+KNOWN_OUT = ()
 
 
 def provider_threading(tier="quick", root=None):
-    return [o for o in threading_obligations(root or _root()) if not o.id.startswith(KNOWN_OUT)]
+    return [o for o in threading_obligations(root or _root()) if not (KNOWN_OUT and o.id.startswith(KNOWN_OUT))]
 
 
 def unregistered_obligations(root=None):
-    return [o for o in threading_obligations(root or _root()) if o.id.startswith(KNOWN_OUT)]
+    return [o for o in threading_obligations(root or _root()) if KNOWN_OUT and o.id.startswith(KNOWN_OUT)]
 
 
 # ------------------------------------------------------------------------------------------------ provider: dispatch (fdx)
@@ -541,8 +562,104 @@ def provider_dispatch(tier="quick", root=None):
     return dispatch_obligations(root or _root())
 
 
+
+# ------------------------------------------------------------------------------------------------ provider: 3D mode dispatch (fdx)
+MODE3 = {"peps": "_contract_boundary_core", "l2bp3d": "_contract_boundary_l2bp", "projector3d": "_contract_boundary_projector"}
+CORES3 = sorted(set(MODE3.values()) | {"_contract_boundary_core_via_2d"})
+
+
+def _load_sibling(root, rel, tag):
+    path = os.path.join(root, rel)
+    pkg = os.path.dirname(rel).replace("/", ".")
+    name = f"{pkg}._c12x_{tag}_{abs(hash(path)) % 10**8}"
+    importlib.import_module(pkg)
+    spec = importlib.util.spec_from_file_location(name, path)
+    mod = importlib.util.module_from_spec(spec)
+    sys.modules[name] = mod
+    try:
+        spec.loader.exec_module(mod)
+    finally:
+        sys.modules.pop(name, None)
+    return mod
+
+
+def dispatch3d_obligations(root):
+    """the REAL TensorNetwork3D.contract_boundary_from executed on a recording receiver for every class of `mode` its body
+    distinguishes (the three literal modes + one other method name) x inplace"""
+    fid = f"{T3}::TensorNetwork3D.contract_boundary_from"
+    out = []
+    t0 = time.time()
+
+    def ob(label, ok, model=None):
+        out.append(ObResult(f"{fid}::{label}", "fdx", "discharged" if ok else "failed", "exhaustive", time.time() - t0,
+                            function=fid, model=None if ok else model, detail=None if ok else str(model)[:300], engine="fdx"))
+
+    try:
+        fn = _load_sibling(root, T3, "core3").TensorNetwork3D.contract_boundary_from
+    except Exception as e:  # noqa
+        ob("module-loads", False, dict(error=f"{type(e).__name__}: {e}"))
+        return out
+
+    class S:
+        def __init__(self, n):
+            self.n = n
+
+        def __repr__(self):
+            return f"<{self.n}>"
+
+    for mode in list(MODE3) + ["zipup"]:
+        for inplace in (True, False):
+            rec = []
+
+            class Net:
+                def __init__(self, orig=None):
+                    self.orig = orig
+
+                def copy(self):
+                    rec.append(("copy", self, (), {}))
+                    return Net(self)
+
+            for m in CORES3:
+                setattr(Net, m, (lambda m: lambda self, *a, **kw: rec.append((m, self, a, kw)))(m))
+            me = Net()
+            given = dict(xrange=S("xrange"), yrange=S("yrange"), zrange=S("zrange"), from_which=S("from_which"),
+                         max_bond=S("max_bond"), cutoff=S("cutoff"), equalize_norms=S("equalize_norms"), compress_opts=S("compress_opts"))
+            extra = dict(canonize=S("canonize"), some_option=S("extra"))
+            try:
+                got = fn(me, given["xrange"], given["yrange"], given["zrange"], given["from_which"], given["max_bond"],
+                         cutoff=given["cutoff"], mode=mode, equalize_norms=given["equalize_norms"],
+                         compress_opts=given["compress_opts"], inplace=inplace, **extra)
+                err = None
+            except Exception as e:  # noqa
+                got, err = None, f"{type(e).__name__}: {e}"
+            cores = [r for r in rec if r[0] != "copy"]
+            copies = [r for r in rec if r[0] == "copy"]
+            model = dict(call=f"TensorNetwork3D.contract_boundary_from(net, ..., mode={mode!r}, inplace={inplace})", error=err,
+                         calls=[(r[0], "receiver" if r[1] is me else "copy", {a: repr(b) for a, b in r[3].items()}) for r in rec])
+            one = err is None and len(cores) == 1
+            work = cores[0][1] if one else None
+            tag = f"dispatch[mode={mode if mode in MODE3 else 'other'},inplace={inplace}]"
+            ob(f"{tag}: works on the receiver iff inplace, else on ONE copy of it; returns the working network",
+               one and ((inplace and work is me and not copies) or (not inplace and len(copies) == 1 and copies[0][1] is me
+                                                                    and work.orig is me)) and got is work, model)
+            ob(f"{tag}: exactly the core of that mode runs, once", one and cores[0][0] == MODE3.get(mode, "_contract_boundary_core_via_2d")
+               and not cores[0][2], model)
+            want = dict(given, **extra)
+            if mode not in MODE3:
+                want["method"] = mode
+            ob(f"{tag}: max_bond and cutoff reach the core unchanged",
+               one and cores[0][3].get("max_bond") is given["max_bond"] and cores[0][3].get("cutoff") is given["cutoff"], model)
+            ob(f"{tag}: ranges, from_which and every other option reach the core unchanged, nothing added",
+               one and set(cores[0][3]) == set(want) and all(cores[0][3][a] is want[a] for a in want), model)
+    return out
+
+
+def provider_dispatch3d(tier="quick", root=None):
+    return dispatch3d_obligations(root or _root())
+
+
 def provider(tier="quick"):
-    return provider_threading(tier) + provider_dispatch(tier)
+    return provider_threading(tier) + provider_dispatch(tier) + provider_dispatch3d(tier)
 
 
 if __name__ == "__main__":
